@@ -1,5 +1,6 @@
 import CalicoVerif.Util.Proto
 import CalicoVerif.Model.C02
+import CalicoVerif.Model.C03
 /-! Driver for C02 (EventSequencer + AsyncCalcGraph flush logic).
 
 Tokens: `~` = empty string; lists are comma separated, `-` = empty list.
@@ -15,10 +16,14 @@ Ops: `new` | `ipset-add id typ` | `ipset-rm id` | `mem-add id m` | `mem-rm id m`
  | `encap tag` | `bgp tag` | `flush`
  | `acg-new` | `acg-status wait|resync|insync` | `acg-upd` | `acg-upd wg node key` | `acg-del wg node`
  | `acg-tick` | `acg-end`
+ graph mode (real ARC+RuleScanner+PolicyResolver in front of the sequencer; resolver = Model.C03):
+ `g-new` | `g-tier n order act` | `g-tier-del n` | `g-pol key tier order flags types x=sel` | `g-pol-del key`
+ | `g-ep w:id tag profs x=labels` | `g-ep-del k` | `g-match key ep` | `g-unmatch key ep` | `g-status wait|resync|insync`
+ | `g-flush` (resolver flush, its calls applied to the sequencer, sequencer flush) | `noop …`
 Output: `ok` / `panic` for calls; for `flush` the canonical message list.  The `acg-*` ops
 print the messages emitted while the PREVIOUS acg op was processed (see harness).
 -/
-open CalicoVerif CalicoVerif.C02 CalicoVerif.Proto
+open CalicoVerif CalicoVerif.C02 CalicoVerif.C03 CalicoVerif.Proto
 
 def tok (s : String) : String := if s == "~" then "" else s
 def untok (s : String) : String := if s == "" then "~" else s
@@ -106,7 +111,31 @@ def canon (ms : List Msg) : String :=
   let strs := sorted.flatten.map (fun (c, k, r) => if r == "" then s!"{c} {k}" else s!"{c} {k} {r}")
   if strs.isEmpty then "none" else ";".intercalate strs
 
+def parseOrderG (s : String) : Option (Option Int) :=
+  if s == "~" then some none else s.toInt?.map some
+
+/-- graph-mode resolver inputs (`g-…` lines; a trailing `x=…` token is real-side-only data) -/
+def parseGEvent (ws : List String) : Option Event :=
+  match ws.filter (fun w => !w.startsWith "x=") with
+  | ["g-tier", n, o, a] => (parseOrderG o).map fun o => .tier n (some (o, tok a))
+  | ["g-tier-del", n] => some (.tier n none)
+  | ["g-pol", k, t, o, fl, ty] => do
+      let k ← parseKey k
+      let o ← parseOrderG o
+      pure (.policy k (some ⟨tok t, o, fl.contains 'u', fl.contains 'd', fl.contains 'f', csv ty⟩))
+  | ["g-pol-del", k] => (parseKey k).map fun k => .policy k none
+  | ["g-ep", k, tag, profs] => (parseEpKey k).map fun k => .endpoint k (some ⟨tok tag, csv profs⟩)
+  | ["g-ep-del", k] => (parseEpKey k).map fun k => .endpoint k none
+  | ["g-match", p, e] => do pure (.matchStarted (← parseKey p) (← parseEpKey e))
+  | ["g-unmatch", p, e] => do pure (.matchStopped (← parseKey p) (← parseEpKey e))
+  | ["g-status", "insync"] => some (.status true)
+  | ["g-status", "wait"] => some (.status false)
+  | ["g-status", "resync"] => some (.status false)
+  | _ => none
+
 structure DState where
+  /-- graph mode: the PolicyResolver model in front of the sequencer -/
+  res : Resolver := {}
   seq : State := {}
   acg : Acg := {}
   /-- output of the previous acg op, printed by the next one -/
@@ -150,6 +179,16 @@ def acgEvent (d : DState) (e : AcgEvent) : DState × String :=
 def step (d : DState) (line : String) : DState × String :=
   match words line with
   | ["new"] => ({}, "ok")
+  | ["g-new"] => ({}, "ok")
+  | "noop" :: _ => (d, "ok")
+  | ["g-flush"] =>
+    -- CalcGraph.Flush() (= PolicyResolver.Flush) then EventSequencer.Flush()
+    match d.res.flush with
+    | none => (d, "panic")
+    | some (r', calls) =>
+      match applyCalls d.seq calls with
+      | none => (d, "panic")
+      | some s1 => let (s2, ms) := s1.flush; ({ d with res := r', seq := s2 }, canon ms)
   | ["flush"] => let (s, ms) := d.seq.flush; ({ d with seq := s }, canon ms)
   | ["acg-new"] => ({}, "ok")
   | ["acg-status", "wait"] => acgEvent d (.status .waitForDatastore [])
@@ -162,7 +201,10 @@ def step (d : DState) (line : String) : DState × String :=
   | ["acg-end"] => (d, d.held)
   | ws =>
     match parseCall ws with
-    | none => (d, "bad-op")
+    | none =>
+      match parseGEvent ws with
+      | some e => ({ d with res := d.res.step e }, "ok")
+      | none => (d, "bad-op")
     | some c =>
       match d.seq.call c with
       | none => (d, "panic")
